@@ -94,3 +94,100 @@ def equals_valid_index(test, index_text, length_texts):
             if v != (-n <= i < n):
                 return False, (i, n)
     return True, None
+
+
+# ------------------------------------------------------------------ position selection
+class _NoValue:
+    pass
+
+
+def _sel(e, env):
+    """Interpret a position-selecting expression on a concrete list (env maps names/texts to ints, lists or None)."""
+    t = norm(e)
+    if t in env:
+        return env[t]
+    if isinstance(e, ast.Constant):
+        return e.value
+    if isinstance(e, ast.IfExp):
+        return _sel(e.body, env) if _sel(e.test, env) else _sel(e.orelse, env)
+    if isinstance(e, ast.UnaryOp):
+        v = _sel(e.operand, env)
+        if isinstance(e.op, ast.Not):
+            return not v
+        if isinstance(e.op, ast.USub):
+            return -v
+        raise Unsupported(t)
+    if isinstance(e, ast.BoolOp):
+        vals = e.values
+        if isinstance(e.op, ast.And):
+            r = True
+            for v in vals:
+                r = _sel(v, env)
+                if not r:
+                    return r
+            return r
+        r = False
+        for v in vals:
+            r = _sel(v, env)
+            if r:
+                return r
+        return r
+    if isinstance(e, ast.BinOp) and isinstance(e.op, (ast.Add, ast.Sub)):
+        a, b = _sel(e.left, env), _sel(e.right, env)
+        return a + b if isinstance(e.op, ast.Add) else a - b
+    if isinstance(e, ast.Compare):
+        left = _sel(e.left, env)
+        for op, c in zip(e.ops, e.comparators):
+            right = _sel(c, env)
+            ok = {ast.Lt: lambda a, b: a < b, ast.LtE: lambda a, b: a <= b, ast.Gt: lambda a, b: a > b, ast.GtE: lambda a, b: a >= b,
+                  ast.Eq: lambda a, b: a == b, ast.NotEq: lambda a, b: a != b, ast.Is: lambda a, b: a is b,
+                  ast.IsNot: lambda a, b: a is not b}.get(type(op))
+            if ok is None:
+                raise Unsupported(t)
+            if not ok(left, right):
+                return False
+            left = right
+        return True
+    if isinstance(e, ast.Call) and isinstance(e.func, ast.Name):
+        if e.func.id == "len" and len(e.args) == 1:
+            return len(_sel(e.args[0], env))
+        if e.func.id == "abs" and len(e.args) == 1:
+            return abs(_sel(e.args[0], env))
+        if e.func.id == "next" and len(e.args) == 2 and isinstance(e.args[0], ast.Call) and isinstance(e.args[0].func, ast.Name) \
+                and e.args[0].func.id == "iter" and len(e.args[0].args) == 1:
+            seq = _sel(e.args[0].args[0], env)
+            return seq[0] if len(seq) else _sel(e.args[1], env)
+        if e.func.id in ("list", "tuple") and len(e.args) == 1:
+            return list(_sel(e.args[0], env))
+    if isinstance(e, ast.Subscript):
+        base = _sel(e.value, env)
+        if isinstance(e.slice, ast.Slice):
+            lo = _sel(e.slice.lower, env) if e.slice.lower is not None else None
+            hi = _sel(e.slice.upper, env) if e.slice.upper is not None else None
+            st = _sel(e.slice.step, env) if e.slice.step is not None else None
+            return base[lo:hi:st]
+        i = _sel(e.slice, env)
+        return base[i]                      # IndexError propagates: the expression itself would raise
+    raise Unsupported(t)
+
+
+def selects_like_indexing(expr, index_text, seq_text, extra=None):
+    """Does ``expr`` give seq[index] for every valid index and None (the default) otherwise, for all lengths / indices?
+    (True, None) / (False, (index, n, got, want)) / (None, reason)."""
+    for n in range(0, 5):
+        for i in range(-n - 2, n + 3):
+            seq = list(range(100, 100 + n))
+            env = {index_text: i, seq_text: seq}
+            env.update(extra or {})
+            want = seq[i] if -n <= i < n else None
+            try:
+                got = _sel(expr, env)
+            except Unsupported as u:
+                return None, f"unsupported expression {u}"
+            except IndexError:
+                got = "IndexError"
+            except Exception as ex:            # a type error in the fragment for this input
+                return None, f"{type(ex).__name__} while interpreting the expression"
+            if got != want:
+                return False, (i, n, got, want)
+    return True, None
